@@ -8,15 +8,15 @@ open Rx Rx.Gen.OnErrorMap
 def absOnErrorMap (g : OnErrorMapObserver) : St1 := .onErrorMap g.map
 
 theorem tie_OnErrorMap_next (g : OnErrorMapObserver) (v : Val) :
-    (OnErrorMapObserver.next g v).map (fun r => (absOnErrorMap r.1, r.2)) = some (St1.onNext (absOnErrorMap g) v) := by
+    (OnErrorMapObserver.next g v).map (fun r => (absOnErrorMap r.1, r.2)) = some (Rs.lift (St1.onNext (absOnErrorMap g) v)) := by
   rcases g with ⟨⟩ <;> rs_tie [OnErrorMapObserver.next, absOnErrorMap, St1.onNext]
 
 theorem tie_OnErrorMap_error (g : OnErrorMapObserver) (e : Err) :
-    (OnErrorMapObserver.error g e).map (fun r => r.2) = some (St1.onError' (absOnErrorMap g) e).2 := by
+    (OnErrorMapObserver.error g e).map (fun r => r.2) = some ((St1.onError' (absOnErrorMap g) e).2.map Rs.Ev.n) := by
   rcases g with ⟨⟩ <;> rs_tie [OnErrorMapObserver.error, absOnErrorMap, St1.onError']
 
 theorem tie_OnErrorMap_complete (g : OnErrorMapObserver) :
-    (OnErrorMapObserver.complete g).map (fun r => r.2) = some (St1.onComplete' (absOnErrorMap g)).2 := by
+    (OnErrorMapObserver.complete g).map (fun r => r.2) = some ((St1.onComplete' (absOnErrorMap g)).2.map Rs.Ev.n) := by
   rcases g with ⟨⟩ <;> rs_tie [OnErrorMapObserver.complete, absOnErrorMap, St1.onComplete']
 
 
